@@ -27,9 +27,9 @@ void lvstub_set_verify(int rct, int bp) { verdict_rct = rct; verdict_bp = bp; }
 static void init(void) {
     if (inited) return;
     if (sodium_init() < 0) abort();
-    unsigned char h[32];
-    crypto_generichash(h, 32, (const unsigned char *)"lvstub-H-generator", 18, NULL, 0);
-    crypto_core_ed25519_from_uniform(HGEN, h);
+    static const unsigned char MONERO_H[32] = {0x8b, 0x65, 0x59, 0x70, 0x15, 0x37, 0x99, 0xaf, 0x2a, 0xea, 0xdc, 0x9f, 0xf1, 0xad, 0xd0, 0xea,
+        0x6c, 0x72, 0x51, 0xd5, 0x41, 0x54, 0xcf, 0xa9, 0x2c, 0x17, 0x3a, 0x0d, 0xd3, 0x9c, 0x1f, 0x94};
+    memcpy(HGEN, MONERO_H, 32); /* = ringct.H in the Go code */
     inited = 1;
 }
 
@@ -108,10 +108,18 @@ void x_addKeys2(rct_key_t aGbB, rct_key_t a, rct_key_t b, rct_key_t B) {
     unsigned char t1[32], t2[32];
     smulbase(t1, U(a)); smul(t2, U(b), U(B)); padd(U(aGbB), t1, t2); DONE;
 }
+/* deterministic key generation once seeded (the harness must replay exactly) */
+static unsigned long long rng_seed = 0, rng_ctr = 0;
+void lvstub_seed(unsigned long long seed) { rng_seed = seed; rng_ctr = 0; }
 void x_skGen(rct_key_t key) {
     init();
     unsigned char w[64];
-    randombytes_buf(w, 64);
+    if (rng_seed != 0) {
+        unsigned long long in[2] = {rng_seed, ++rng_ctr};
+        crypto_generichash(w, 64, (const unsigned char *)in, sizeof in, NULL, 0);
+    } else {
+        randombytes_buf(w, 64);
+    }
     crypto_core_ed25519_scalar_reduce(U(key), w); DONE;
 }
 void x_skpkGen(rct_key_t sk, rct_key_t pk) { x_skGen(sk); smulbase(U(pk), U(sk)); DONE; }
@@ -253,25 +261,171 @@ int x_generate_ring_signature(hash_t prefix_hash, key_image_t image, rct_keyV_t 
     if ((int)sec_index >= pubs->nums) { DONE; return -1; }
     smulbase(pk, U(sec));
     if (memcmp(pk, pubs->v[sec_index], 32) != 0) { DONE; return -1; }
-    ring_tag(U(sig->c), U(sig->r), prefix_hash, image, pubs); DONE; return 0;
+    ring_tag(U(sig->c), U(sig->r), prefix_hash, image, pubs);
+    if (getenv("LVSTUB_DEBUG")) fprintf(stderr, "ringsig gen  prefix=%02x%02x%02x%02x img=%02x%02x pub=%02x%02x n=%d\n", U(prefix_hash)[0], U(prefix_hash)[1], U(prefix_hash)[2], U(prefix_hash)[3], U(image)[0], U(image)[1], U(pubs->v[0])[0], U(pubs->v[0])[1], pubs->nums);
+    DONE; return 0;
 }
 int x_check_ring_signature(hash_t prefix_hash, key_image_t image, rct_keyV_t *pubs, signature_t *sig) {
     init();
     unsigned char c[32], r[32];
     ring_tag(c, r, prefix_hash, image, pubs);
+    if (getenv("LVSTUB_DEBUG")) fprintf(stderr, "ringsig chk  prefix=%02x%02x%02x%02x img=%02x%02x pub=%02x%02x n=%d\n", U(prefix_hash)[0], U(prefix_hash)[1], U(prefix_hash)[2], U(prefix_hash)[3], U(image)[0], U(image)[1], U(pubs->v[0])[0], U(pubs->v[0])[1], pubs->nums);
     int ok = memcmp(c, sig->c, 32) == 0 && memcmp(r, sig->r, 32) == 0; DONE; return ok ? 0 : -1;
 }
 int x_words_to_bytes(char *words, p_secret_key_t dst) { (void)words; (void)dst; DONE; return -1; }
 int x_bytes_to_words(p_secret_key_t src, char **words, char *language_name) { (void)src; (void)words; (void)language_name; DONE; return -1; }
 
 /* ---- tlv api -------------------------------------------------------------------------------- */
-int tlv_verRctNotSemanticsSimple(unsigned char *raw, int in_len) { (void)raw; (void)in_len; DONE; return verdict_rct > 0 ? 1 : -1; }
-int tlv_verRctSimple(unsigned char *raw, int in_len) { (void)raw; (void)in_len; DONE; return verdict_rct; }
-int tlv_verBulletproof(unsigned char *raw, int in_len) { (void)raw; (void)in_len; DONE; return verdict_bp; }
-int tlv_verBulletproof128(unsigned char *raw, int in_len) { (void)raw; (void)in_len; DONE; return verdict_bp; }
-int tlv_get_pre_mlsag_hash(rct_key_t key, unsigned char *raw, int in_len) {
-    init(); crypto_generichash(U(key), 32, raw, (size_t)in_len, NULL, 0); DONE; return 0;
+/* TLV: entries  tag(2, LE) | len(2, LE) | data ; maps are written in Go map order (random), so every digest
+ * computed here is order independent at every level that parses as a sequence of entries. */
+
+static const unsigned char SECRET[16] = "lvstub-ideal-fn";   /* the functionality's tagging key */
+static const unsigned char INV8[32] = {0x79, 0x2f, 0xdc, 0xe2, 0x29, 0xe5, 0x06, 0x61, 0xd0, 0xda, 0x1c, 0x7d, 0xb3, 0x9d, 0xd3, 0x07,
+    0, 0, 0, 0, 0, 0, 0, 0, 0, 0, 0, 0, 0, 0, 0, 0x06};
+
+static int tlv_entry(const unsigned char *p, int n, int off, int *tag, const unsigned char **d, int *dl) {
+    if (off + 4 > n) return -1;
+    *tag = p[off] | (p[off + 1] << 8);           /* little endian (TagTo2Byte / LenTo2Byte) */
+    *dl = p[off + 2] | (p[off + 3] << 8);
+    if (off + 4 + *dl > n) return -1;
+    *d = p + off + 4;
+    return off + 4 + *dl;
 }
+static int tlv_get(const unsigned char *p, int n, int want, const unsigned char **d, int *dl) {
+    int off = 0, tag;
+    while (off < n) {
+        const unsigned char *e; int el;
+        int nx = tlv_entry(p, n, off, &tag, &e, &el);
+        if (nx < 0) return -1;
+        if (tag == want) { *d = e; *dl = el; return 0; }
+        off = nx;
+    }
+    return -1;
+}
+static int tlv_count(const unsigned char *p, int n) {
+    int off = 0, tag, c = 0;
+    while (off < n) {
+        const unsigned char *e; int el;
+        int nx = tlv_entry(p, n, off, &tag, &e, &el);
+        if (nx < 0) return -1;
+        c++; off = nx;
+    }
+    return off == n ? c : -1;
+}
+static int tlv_nth(const unsigned char *p, int n, int i, const unsigned char **d, int *dl) {
+    int off = 0, tag, c = 0;
+    while (off < n) {
+        int nx = tlv_entry(p, n, off, &tag, d, dl);
+        if (nx < 0) return -1;
+        if (c == i) return 0;
+        c++; off = nx;
+    }
+    return -1;
+}
+/* order-independent digest: a buffer that parses exactly as >= 1 entries is a map (sum of entry digests), else raw */
+static void canon(const unsigned char *p, int n, unsigned char out[32], int depth) {
+    int c = (n >= 4 && depth < 6) ? tlv_count(p, n) : -1;
+    if (c <= 0 || n % 32 == 0) {   /* fixed-size key vectors (multiples of 32) are raw */
+        crypto_generichash_state st;
+        crypto_generichash_init(&st, NULL, 0, 32);
+        crypto_generichash_update(&st, (const unsigned char *)"R", 1);
+        crypto_generichash_update(&st, p, (size_t)n);
+        crypto_generichash_final(&st, out, 32);
+        return;
+    }
+    unsigned char acc[32]; memset(acc, 0, 32);
+    int off = 0, tag;
+    while (off < n) {
+        const unsigned char *e; int el;
+        int nx = tlv_entry(p, n, off, &tag, &e, &el);
+        unsigned char sub[32], h[32], t[2] = {(unsigned char)(tag >> 8), (unsigned char)tag};
+        canon(e, el, sub, depth + 1);
+        crypto_generichash_state st;
+        crypto_generichash_init(&st, NULL, 0, 32);
+        crypto_generichash_update(&st, (const unsigned char *)"M", 1);
+        crypto_generichash_update(&st, t, 2);
+        crypto_generichash_update(&st, sub, 32);
+        crypto_generichash_final(&st, h, 32);
+        for (int i = 0; i < 32; i++) acc[i] ^= h[i];   /* xor of entry digests: order independent */
+        off = nx;
+    }
+    memcpy(out, acc, 32);
+}
+/* order-DEPENDENT digest of a sequence of entries whose position matters (slices), each entry canonicalised */
+static void canon_seq(const unsigned char *p, int n, unsigned char out[32]) {
+    crypto_generichash_state st;
+    crypto_generichash_init(&st, NULL, 0, 32);
+    int off = 0, tag;
+    while (off < n) {
+        const unsigned char *e; int el; unsigned char sub[32];
+        int nx = tlv_entry(p, n, off, &tag, &e, &el);
+        if (nx < 0) break;
+        canon(e, el, sub, 1);
+        crypto_generichash_update(&st, sub, 32);
+        off = nx;
+    }
+    crypto_generichash_final(&st, out, 32);
+}
+/* a slice of fixed-size elements, each element a map written without header (CtkeyV: 72-byte blocks, EcdhTuple: 108) */
+static void canon_blocks(const unsigned char *p, int n, int bs, unsigned char out[32]) {
+    crypto_generichash_state st;
+    crypto_generichash_init(&st, NULL, 0, 32);
+    for (int off = 0; off + bs <= n; off += bs) {
+        unsigned char sub[32];
+        canon(p + off, bs, sub, 1);
+        crypto_generichash_update(&st, sub, 32);
+    }
+    crypto_generichash_final(&st, out, 32);
+}
+static void tagged(unsigned char out[32], const char *label, const unsigned char *a, size_t an, const unsigned char *b, size_t bn,
+                   const unsigned char *c, size_t cn, const unsigned char *d, size_t dn) {
+    crypto_generichash_state st;
+    crypto_generichash_init(&st, SECRET, sizeof SECRET, 32);
+    crypto_generichash_update(&st, (const unsigned char *)label, strlen(label));
+    if (a) crypto_generichash_update(&st, a, an);
+    if (b) crypto_generichash_update(&st, b, bn);
+    if (c) crypto_generichash_update(&st, c, cn);
+    if (d) crypto_generichash_update(&st, d, dn);
+    crypto_generichash_final(&st, out, 32);
+}
+static unsigned char *put(unsigned char *w, int tag, const unsigned char *d, int n) {
+    w[0] = (unsigned char)tag; w[1] = (unsigned char)(tag >> 8); w[2] = (unsigned char)n; w[3] = (unsigned char)(n >> 8);
+    if (n) memcpy(w + 4, d, (size_t)n);
+    return w + 4 + n;
+}
+
+/* pre-MLSAG hash (what the spend authorisation signs): message, type, fee, ecdhInfo, outPk, and every bulletproof
+ * without V (as Monero's get_pre_mlsag_hash) */
+int tlv_get_pre_mlsag_hash(rct_key_t key, unsigned char *raw, int in_len) {
+    init();
+    const unsigned char *base, *P, *d; int bn, pn, dn;
+    unsigned char parts[7][32]; memset(parts, 0, sizeof parts);
+    if (tlv_get(raw, in_len, 2, &base, &bn) != 0) { DONE; return -1; }
+    if (tlv_get(base, bn, 2, &d, &dn) == 0) canon(d, dn, parts[0], 1);          /* message (prefix hash) */
+    if (tlv_get(base, bn, 1, &d, &dn) == 0) canon(d, dn, parts[1], 1);          /* type */
+    if (tlv_get(base, bn, 7, &d, &dn) == 0) canon(d, dn, parts[2], 1);          /* fee */
+    if (tlv_get(base, bn, 5, &d, &dn) == 0) canon_blocks(d, dn, 108, parts[3]); /* ecdhInfo: 108-byte EcdhTuple blocks */
+    if (tlv_get(base, bn, 6, &d, &dn) == 0) canon_blocks(d, dn, 72, parts[4]);  /* outPk: 72-byte Ctkey blocks */
+    if (tlv_get(raw, in_len, 1, &P, &pn) == 0 && tlv_get(P, pn, 2, &d, &dn) == 0) {
+        /* bulletproofs: each one without its V (tag 1) */
+        crypto_generichash_state st; crypto_generichash_init(&st, NULL, 0, 32);
+        int off = 0, tag;
+        while (off < dn) {
+            const unsigned char *bp; int bl;
+            int nx = tlv_entry(d, dn, off, &tag, &bp, &bl);
+            if (nx < 0) break;
+            for (int t = 2; t <= 12; t++) {
+                const unsigned char *f; int fl; unsigned char h[32];
+                if (tlv_get(bp, bl, t, &f, &fl) == 0) { canon(f, fl, h, 2); crypto_generichash_update(&st, h, 32); }
+            }
+            off = nx;
+        }
+        crypto_generichash_final(&st, parts[5], 32);
+    }
+    crypto_generichash(U(key), 32, &parts[0][0], sizeof parts, NULL, 0);
+    DONE; return 0;
+}
+
 int tlv_addKeyV(rct_key_t sum, unsigned char *raw, int in_len) {
     init();
     unsigned char acc[32];
@@ -280,11 +434,115 @@ int tlv_addKeyV(rct_key_t sum, unsigned char *raw, int in_len) {
     for (int off = 0; off < in_len; off += 32) padd(acc, acc, raw + off);
     memcpy(sum, acc, 32); DONE; return 0;
 }
-int tlv_proveRangeBulletproof(unsigned char *raw, int in_len, unsigned char **out) { (void)raw; (void)in_len; (void)out; DONE; return -1; }
-int tlv_proveRangeBulletproof128(unsigned char *raw, int in_len, unsigned char **out) { (void)raw; (void)in_len; (void)out; DONE; return -1; }
-int tlv_proveRctMGSimple(rct_key_t mscout, unsigned int index, unsigned char *raw, int in_len, unsigned char **out) {
-    (void)mscout; (void)index; (void)raw; (void)in_len; (void)out; DONE; return -1;
+
+/* ---- range proofs: ideal functionality.  The prover refuses amounts >= 2^64 and tags the commitments with the
+ * functionality's key; the verifier accepts exactly the proofs whose tag matches their V. */
+static int ceil_log2(int n) { int k = 0; while ((1 << k) < n) k++; return k; }
+static void bp_tag(unsigned char out[32], const unsigned char *V, int vn) { tagged(out, "bp", V, (size_t)vn, NULL, 0, NULL, 0, NULL, 0); }
+
+static int prove_bp(unsigned char *raw, int in_len, unsigned char **out) {
+    init();
+    const unsigned char *am, *sk; int an, sn;
+    if (tlv_get(raw, in_len, 1, &am, &an) != 0 || tlv_get(raw, in_len, 2, &sk, &sn) != 0 || an != sn || an % 32 != 0 || an == 0 || an / 32 > 16) { DONE; return -1; }
+    int n = an / 32, m = 6 + ceil_log2(n);
+    unsigned char V[16 * 32], masks[16 * 32];
+    for (int i = 0; i < n; i++) {
+        const unsigned char *a = am + 32 * i;
+        for (int j = 8; j < 32; j++) if (a[j]) { DONE; return -1; }          /* amount >= 2^64: no proof exists */
+        unsigned char buf[48], mk[32], c[32], t1[32], t2[32], s1[32], s2[32];
+        memcpy(buf, "commitment_mask", 16); memcpy(buf + 16, sk + 32 * i, 32);
+        hash_to_scalar(mk, buf, 48);
+        memcpy(masks + 32 * i, mk, 32);
+        /* V = (1/8)(mask*G + amount*H) */
+        crypto_core_ed25519_scalar_mul(s1, mk, INV8);
+        unsigned char ar[32]; sc_reduce32(ar, a);
+        crypto_core_ed25519_scalar_mul(s2, ar, INV8);
+        smulbase(t1, s1); smul(t2, s2, HGEN); padd(c, t1, t2);
+        memcpy(V + 32 * i, c, 32);
+    }
+    unsigned char bp[4096], *w = bp, zero[32], tg[32], LR[10 * 32];
+    memset(zero, 0, 32); memset(LR, 0, sizeof LR);
+    for (int i = 0; i < m; i++) memcpy(LR + 32 * i, IDENT, 32);
+    bp_tag(tg, V, 32 * n);
+    w = put(w, 1, V, 32 * n);
+    for (int t = 2; t <= 7; t++) w = put(w, t, t <= 5 ? IDENT : zero, 32);
+    w = put(w, 8, LR, 32 * m); w = put(w, 9, LR, 32 * m);
+    w = put(w, 10, zero, 32); w = put(w, 11, zero, 32);
+    w = put(w, 12, tg, 32);                                                   /* t := tag */
+    int bl = (int)(w - bp);
+    unsigned char *o = malloc((size_t)(3 * 4 + 64 * n + bl)), *q = o;
+    q = put(q, 1, V, 32 * n); q = put(q, 2, masks, 32 * n); q = put(q, 3, bp, bl);
+    *out = o; DONE; return (int)(q - o);
 }
+int tlv_proveRangeBulletproof(unsigned char *raw, int in_len, unsigned char **out) { return prove_bp(raw, in_len, out); }
+int tlv_proveRangeBulletproof128(unsigned char *raw, int in_len, unsigned char **out) { return prove_bp(raw, in_len, out); }
+
+static int ver_bp(const unsigned char *bp, int bl) {
+    const unsigned char *V, *t; int vn, tn; unsigned char tg[32];
+    if (verdict_bp != 1) return verdict_bp;
+    if (tlv_get(bp, bl, 1, &V, &vn) != 0 || tlv_get(bp, bl, 12, &t, &tn) != 0 || tn != 32 || vn == 0) return 0;
+    bp_tag(tg, V, vn);
+    return memcmp(tg, t, 32) == 0 ? 1 : 0;
+}
+int tlv_verBulletproof(unsigned char *raw, int in_len) { init(); int r = ver_bp(raw, in_len); DONE; return r; }
+int tlv_verBulletproof128(unsigned char *raw, int in_len) { init(); int r = ver_bp(raw, in_len); DONE; return r; }
+
+/* ---- MLSAG (rings of size > 1): ideal functionality.  The prover checks that it holds the key of pubs[index] and
+ * that pubs[index].mask - Cout commits to zero under (inSk.mask - a); the proof is a tag over (message, ring, Cout, image). */
+static void ctkey_fields(const unsigned char *ck, int cl, const unsigned char **dest, const unsigned char **mask) {
+    int n; *dest = *mask = NULL;
+    tlv_get(ck, cl, 1, dest, &n); tlv_get(ck, cl, 2, mask, &n);
+}
+int tlv_proveRctMGSimple(rct_key_t mscout, unsigned int index, unsigned char *raw, int in_len, unsigned char **out) {
+    (void)mscout; init();
+    const unsigned char *msg, *pubs, *insk, *a, *cout; int mn, pn, in, an, cn;
+    if (tlv_get(raw, in_len, 1, &msg, &mn) || tlv_get(raw, in_len, 2, &pubs, &pn) || tlv_get(raw, in_len, 3, &insk, &in) ||
+        tlv_get(raw, in_len, 4, &a, &an) || tlv_get(raw, in_len, 5, &cout, &cn) || mn != 32 || an != 32 || cn != 32) { DONE; return -1; }
+    int rows = pn / 72;                                                       /* CtkeyV: 72-byte Ctkey blocks */
+    const unsigned char *ck = pubs + 72 * (int)index; int cl = 72, dummy;
+    if (rows <= 0 || pn % 72 != 0 || (int)index >= rows) { DONE; return -1; }
+    const unsigned char *pd, *pm, *sd, *sm;
+    ctkey_fields(ck, cl, &pd, &pm); ctkey_fields(insk, in, &sd, &sm);
+    if (!pd || !pm || !sd || !sm) { DONE; return -1; }
+    unsigned char P[32], z[32], zg[32], diff[32], img[32], hp[32];
+    smulbase(P, sd);
+    if (memcmp(P, pd, 32) != 0) { DONE; return -1; }                          /* not the owner */
+    unsigned char s1[32], s2[32];
+    sc_reduce32(s1, sm); sc_reduce32(s2, a); crypto_core_ed25519_scalar_sub(z, s1, s2);
+    smulbase(zg, z); psub(diff, pm, cout);
+    if (memcmp(zg, diff, 32) != 0) { DONE; return -1; }                       /* amounts differ: no proof exists */
+    hash_to_point(hp, pd, 32); smul(img, sd, hp);
+    unsigned char ring[32], cc[32];
+    canon_blocks(pubs, pn, 72, ring);
+    tagged(cc, "mg", msg, 32, ring, 32, cout, 32, img, 32);
+    unsigned char ss[64 * 64 + 64 * 4], *w = ss, zero64[64]; memset(zero64, 0, 64);
+    if (rows > 64) { DONE; return -1; }
+    for (int i = 0; i < rows; i++) w = put(w, i, zero64, 64);
+    unsigned char *o = malloc((size_t)(12 + 32 + 32 + (w - ss))), *q = o;
+    q = put(q, 1, cc, 32); q = put(q, 2, img, 32); q = put(q, 3, ss, (int)(w - ss));
+    (void)dummy; *out = o; DONE; return (int)(q - o);
+}
+static int ver_mgs(unsigned char *raw, int in_len) {
+    if (verdict_rct != 1) return verdict_rct;
+    const unsigned char *base, *P, *ring, *pouts, *mgs; int bn, pn, rn, on, gn;
+    unsigned char msg[32];
+    if (tlv_get(raw, in_len, 2, &base, &bn) || tlv_get(raw, in_len, 1, &P, &pn)) return 0;
+    if (tlv_get_pre_mlsag_hash((char *)msg, raw, in_len) != 0) return 0;
+    if (tlv_get(base, bn, 3, &ring, &rn) || tlv_get(P, pn, 4, &pouts, &on) || tlv_get(P, pn, 3, &mgs, &gn)) return 0;
+    int n = tlv_count(ring, rn);
+    if (n <= 0 || on != 32 * n || tlv_count(mgs, gn) != n) return 0;
+    for (int i = 0; i < n; i++) {
+        const unsigned char *row, *mg, *cc, *ii; int rl, ml, cl, il; unsigned char rd[32], want[32];
+        if (tlv_nth(ring, rn, i, &row, &rl) || tlv_nth(mgs, gn, i, &mg, &ml)) return 0;
+        if (tlv_get(mg, ml, 1, &cc, &cl) || tlv_get(mg, ml, 2, &ii, &il) || cl != 32 || il < 32) return 0;
+        canon_blocks(row, rl, 72, rd);
+        tagged(want, "mg", msg, 32, rd, 32, pouts + 32 * i, 32, ii, 32);
+        if (memcmp(want, cc, 32) != 0) return 0;
+    }
+    return 1;
+}
+int tlv_verRctNotSemanticsSimple(unsigned char *raw, int in_len) { init(); int r = ver_mgs(raw, in_len); DONE; return r > 0 ? 1 : -1; }
+int tlv_verRctSimple(unsigned char *raw, int in_len) { init(); int r = ver_mgs(raw, in_len); DONE; return r; }
 int tlv_get_subaddress(uint32_t index, unsigned char *raw, int in_len, unsigned char **out) { (void)index; (void)raw; (void)in_len; (void)out; DONE; return -1; }
 int test_tlv_keyV(unsigned char *in, int in_len, unsigned char **out) {
     *out = malloc((size_t)in_len ? (size_t)in_len : 1); memcpy(*out, in, (size_t)in_len); DONE; return in_len;
